@@ -57,7 +57,9 @@ var safePathSegmentRe = regexp.MustCompile(`^[A-Za-z0-9._-]+$`)
 
 func (s *Server) getGateKeeper(r *http.Request) sts.GateKeeper {
 	source := getSourceName(r)
-	if source == "" {
+	if source == "" || source == "." || source == ".." {
+		// The source name becomes a directory name under the stage, final and
+		// log directories
 		return nil
 	}
 	s.lock.RLock()
@@ -75,6 +77,31 @@ func (s *Server) getGateKeeper(r *http.Request) sts.GateKeeper {
 
 func hasRequestBody(r *http.Request) bool {
 	return r.ContentLength != 0 || len(r.TransferEncoding) > 0
+}
+
+// validateNames makes sure the paths received from a client stay inside the
+// directories they will be joined to (no absolute paths, no parent-directory
+// escapes).  Empty optional names are fine.
+func validateNames(required string, optional ...string) error {
+	if !filepath.IsLocal(required) {
+		return fmt.Errorf("invalid file name: %q", required)
+	}
+	for _, name := range optional {
+		if name != "" && !filepath.IsLocal(name) {
+			return fmt.Errorf("invalid file name: %q", name)
+		}
+	}
+	return nil
+}
+
+func validateParts(parts []sts.Binned) error {
+	for _, part := range parts {
+		if err := validateNames(
+			part.GetName(), part.GetRenamed(), part.GetPrev()); err != nil {
+			return err
+		}
+	}
+	return nil
 }
 
 func normalizeRepeatedSlashes(path string) string {
@@ -478,12 +505,19 @@ func (s *Server) routeValidate(w http.ResponseWriter, r *http.Request) {
 		w.WriteHeader(http.StatusBadRequest)
 		return
 	}
-	gateKeeper := s.getGateKeeper(r)
-	respMap := make(map[string]int, len(files))
 	for _, f := range files {
 		if sep != "" {
 			f.Name = filepath.Join(strings.Split(f.Name, sep)...)
 		}
+		if err = validateNames(f.Name); err != nil {
+			log.Error(err.Error())
+			w.WriteHeader(http.StatusBadRequest)
+			return
+		}
+	}
+	gateKeeper := s.getGateKeeper(r)
+	respMap := make(map[string]int, len(files))
+	for _, f := range files {
 		respMap[f.Name] = gateKeeper.GetFileStatus(f.GetName(), f.GetStarted())
 	}
 	respJSON, _ := json.Marshal(respMap)
@@ -535,6 +569,11 @@ func (s *Server) routeData(w http.ResponseWriter, r *http.Request) {
 		return
 	}
 	parts := decoder.GetParts()
+	if err = validateParts(parts); err != nil {
+		log.Error(err.Error())
+		w.WriteHeader(http.StatusBadRequest)
+		return
+	}
 	gateKeeper := s.getGateKeeper(r)
 	gateKeeper.Prepare(parts)
 	index := 0
@@ -611,6 +650,11 @@ func (s *Server) routeDataRecovery(w http.ResponseWriter, r *http.Request) {
 	}
 	gateKeeper := s.getGateKeeper(r)
 	parts := decoder.GetParts()
+	if err = validateParts(parts); err != nil {
+		log.Error(err.Error())
+		w.WriteHeader(http.StatusBadRequest)
+		return
+	}
 	n := gateKeeper.Received(parts)
 	log.Debug("STS data-recovery request complete:", "source=", source, "partsReceived=", n)
 	w.Header().Add(HeaderPartCount, strconv.Itoa(n))
